@@ -157,11 +157,16 @@ func (c *tracingHTTP2Conn) handleFrame(frame http2.Frame, isRequest bool) {
 			// response headers
 			c.receiveResponseLocked(stream, frame)
 		case isRequest:
-			// request trailers
-			stream.builder.trace.Request.Trailer = makeHeaders(frame)
+			// request trailers (the trace is empty, with no request or response to
+			// attach trailers to, if the stream has no test name or is finished)
+			if stream.builder.trace.Request != nil {
+				stream.builder.trace.Request.Trailer = makeHeaders(frame)
+			}
 		default:
 			// response trailers
-			stream.builder.trace.Response.Trailer = makeHeaders(frame)
+			if stream.builder.trace.Response != nil {
+				stream.builder.trace.Response.Trailer = makeHeaders(frame)
+			}
 		}
 		if frame.StreamEnded() {
 			c.closeStreamLocked(frame.StreamID, stream, isRequest, nil)
